@@ -96,11 +96,19 @@ def R (x y : Range α) : Prop := x.e ≤ y.b
 /-- points denoted by a list of ranges -/
 def pts (m : List (Range α)) (p : α) : Prop := ∃ x ∈ m, mem p x
 
-/-- representation invariant of a multi-range (universe of coordinates `≥ 0`) -/
-def Inv (m : List (Range α)) : Prop := (∀ x ∈ m, 0 ≤ x.b ∧ x.b < x.e) ∧ m.Pairwise R
+/-- representation invariant of a multi-range: non-empty ranges in ascending order, pairwise
+disjoint (touching allowed).  No restriction on the sign of the coordinates since the round-2
+audit repair of `clean_`. -/
+def Inv (m : List (Range α)) : Prop := (∀ x ∈ m, x.b < x.e) ∧ m.Pairwise R
+
+/-- two ranges `clean_` may be handed together: disjoint, unless one of them is empty (an empty
+range — the `[0,0[` of `sliceWith`, or an empty argument — may lie anywhere) -/
+def DisjNE (x y : Range α) : Prop := x.b = x.e ∨ y.b = y.e ∨ Disj x y
 
 /-- what `clean_` is handed -/
-def PreClean (l : List (Range α)) : Prop := (∀ x ∈ l, 0 ≤ x.b ∧ x.b ≤ x.e) ∧ l.Pairwise Disj
+def PreClean (l : List (Range α)) : Prop := (∀ x ∈ l, x.b ≤ x.e) ∧ l.Pairwise DisjNE
+
+theorem Disj.ne {x y : Range α} (h : Disj x y) : DisjNE x y := Or.inr (Or.inr h)
 
 theorem mem_clean (l : List (Range α)) (y : Range α) : y ∈ clean l ↔ y ∈ l ∧ y.b ≠ y.e := by
   simp [clean, List.mem_filter, mem_sortBy, Range.isEmpty]
@@ -194,9 +202,29 @@ theorem sortBy_sorted (l : List (Range α)) (hw : ∀ x ∈ l, x.WF) (hd : l.Pai
       exact ⟨hw y (by simp [hy]), hd.1 y hy⟩
     · exact ih (fun y hy => hw y (by simp [hy])) hd.2
 
+/-- what `std::sort` is handed inside `clean_`: non-empty, well-formed, pairwise disjoint ranges -/
+theorem clean_sort_input (l : List (Range α)) (h : PreClean l) :
+    (∀ x ∈ l.filter (fun x => !x.isEmpty), x.b < x.e) ∧
+    (l.filter (fun x => !x.isEmpty)).Pairwise Disj := by
+  constructor
+  · intro x hx
+    simp only [List.mem_filter, Range.isEmpty, Bool.not_eq_eq_eq_not, Bool.not_true,
+      decide_eq_false_iff_not] at hx
+    have := h.1 x hx.1
+    grind
+  · apply List.Pairwise.imp_of_mem _ (h.2.filter _)
+    intro x y hx hy hxy
+    simp only [List.mem_filter, Range.isEmpty, Bool.not_eq_eq_eq_not, Bool.not_true,
+      decide_eq_false_iff_not] at hx hy
+    rcases hxy with e | e | e
+    · exact absurd e hx.2
+    · exact absurd e hy.2
+    · exact e
+
 theorem clean_spec (l : List (Range α)) (h : PreClean l) :
     Inv (clean l) ∧ ∀ p, pts (clean l) p ↔ pts l p := by
-  have hs := sortBy_sorted l (fun x hx => (h.1 x hx).2) h.2
+  have hin := clean_sort_input l h
+  have hs := sortBy_sorted _ (fun x hx => by have := hin.1 x hx; simp only [WF]; grind) hin.2
   constructor
   · constructor
     · intro x hx
@@ -204,7 +232,7 @@ theorem clean_spec (l : List (Range α)) (h : PreClean l) :
       have := h.1 x hx.1
       have hne := hx.2
       grind
-    · exact hs.filter _
+    · exact hs
   · intro p
     simp only [pts, mem_clean]
     constructor
@@ -225,8 +253,7 @@ theorem fold_expand (r : Range α) (S : List (Range α)) (acc : Range α)
     (hS : ∀ y ∈ S, y.overlap r = true ∧ y.b < y.e) :
     let z := S.foldl Range.expandWith acc
     (z.b ≤ r.b ∧ r.e ≤ z.e ∧ z.b < z.e) ∧ (∀ p, mem p z ↔ mem p acc ∨ ∃ y ∈ S, mem p y) ∧
-    (∀ w : Range α, w.b < w.e → Disj w acc → (∀ y ∈ S, Disj w y) → Disj w z) ∧
-    (0 ≤ acc.b → (∀ y ∈ S, 0 ≤ y.b) → 0 ≤ z.b) := by
+    (∀ w : Range α, w.b < w.e → Disj w acc → (∀ y ∈ S, Disj w y) → Disj w z) := by
   induction S generalizing acc with
   | nil => simp; exact hacc
   | cons y ys ih =>
@@ -236,7 +263,7 @@ theorem fold_expand (r : Range α) (S : List (Range α)) (acc : Range α)
       simp only [Range.expandWith]; grind
     have := ih (acc.expandWith y) hacc' (fun z hz => hS z (by simp [hz]))
     simp only [List.foldl_cons]
-    refine ⟨this.1, ?_, ?_, ?_⟩
+    refine ⟨this.1, ?_, ?_⟩
     · intro p
       rw [this.2.1 p]
       have hstep : mem p (acc.expandWith y) ↔ mem p acc ∨ mem p y :=
@@ -253,20 +280,15 @@ theorem fold_expand (r : Range α) (S : List (Range α)) (acc : Range α)
           · subst e; exact Or.inl (Or.inr hp)
           · exact Or.inr ⟨z, e, hp⟩
     · intro w hw hwa hwS
-      apply this.2.2.1 w hw
+      apply this.2.2 w hw
       · have hwy := hwS y (by simp)
         simp only [Range.expandWith, Disj] at *; grind
       · intro z hz; exact hwS z (by simp [hz])
-    · intro h0 hS0
-      apply this.2.2.2
-      · have := hS0 y (by simp)
-        simp only [Range.expandWith]; grind
-      · intro z hz; exact hS0 z (by simp [hz])
 
 /-- what the merge loop of `addRange` hands to `clean_` when some stored range overlaps `r`:
 the untouched ranges plus one merged range `mg`, which is non-empty and denotes the union of
 `r` with every overlapped range -/
-theorem mergeInto_some (r : Range α) (hr : r.b ≤ r.e ∧ 0 ≤ r.b) (m : List (Range α)) (hm : Inv m)
+theorem mergeInto_some (r : Range α) (hr : r.b ≤ r.e) (m : List (Range α)) (hm : Inv m)
     (mg : Range α) (l : List (Range α)) (h : mergeInto r m = some (mg, l)) :
     PreClean l ∧ (∀ p, pts l p ↔ pts m p ∨ mem p r) ∧
     (∀ w : Range α, w.b < w.e → w.overlap r = false → (∀ y ∈ m, Disj w y) → ∀ y ∈ l, Disj w y) ∧
@@ -290,11 +312,11 @@ theorem mergeInto_some (r : Range α) (hr : r.b ≤ r.e ∧ 0 ≤ r.b) (m : List
       have hS : ∀ y ∈ (xs.filter (fun y => y.overlap r)).reverse, y.overlap r = true ∧ y.b < y.e := by
         intro y hy
         simp only [List.mem_reverse, List.mem_filter] at hy
-        exact ⟨hy.2, (hxs.1 y hy.1).2⟩
+        exact ⟨hy.2, hxs.1 y hy.1⟩
       have F := fold_expand r _ _ hacc hS
       simp only at F
       subst hmg
-      obtain ⟨F1, F2, F3, F4⟩ := F
+      obtain ⟨F1, F2, F3⟩ := F
       have hacc_mem : ∀ p, mem p (x.expandWith r) ↔ mem p x ∨ mem p r := by
         intro p; exact expand_mem x r (by grind) (by grind) p
       -- Disj of an outside range with the merged range
@@ -312,18 +334,15 @@ theorem mergeInto_some (r : Range α) (hr : r.b ≤ r.e ∧ 0 ≤ r.b) (m : List
       refine ⟨⟨?_, ?_⟩, ?_, ?_, ?_, F1.2.2, ?_⟩
       · intro y hy
         rcases List.mem_cons.mp hy with e | e
-        · have h0 : 0 ≤ (List.foldl Range.expandWith (x.expandWith r) (xs.filter (fun y => y.overlap r)).reverse).b := by
-            apply F4
-            · simp only [Range.expandWith]; grind
-            · intro z hz; simp only [List.mem_reverse, List.mem_filter] at hz; exact (hxs.1 z hz.1).1
-          rw [e]; grind
+        · rw [e]; grind
         · simp only [List.mem_filter] at e
           have := hxs.1 y e.1; grind
       · rw [List.pairwise_cons]
         constructor
         · intro w hw
+          apply Disj.ne
           simp only [List.mem_filter] at hw
-          have hwne := (hxs.1 w hw.1).2
+          have hwne := hxs.1 w hw.1
           have hwov : w.overlap r = false := by
             have := hw.2; simpa using this
           apply Disj.symm
@@ -331,7 +350,7 @@ theorem mergeInto_some (r : Range α) (hr : r.b ≤ r.e ∧ 0 ≤ r.b) (m : List
           intro z hz hzo
           apply disj_of_mem hxs.2 hw.1 hz
           intro e; subst e; rw [hwov] at hzo; cases hzo
-        · exact (hxs.2.imp R.disj).filter _
+        · exact (hxs.2.imp (fun h => Disj.ne (R.disj h))).filter _
       · intro p
         simp only [pts, List.mem_cons, List.mem_filter]
         constructor
@@ -397,7 +416,7 @@ theorem mergeInto_some (r : Range α) (hr : r.b ≤ r.e ∧ 0 ≤ r.b) (m : List
           · subst e; grind
           · exact I1.1 y e
         · rw [List.pairwise_cons]
-          exact ⟨I3 x hx.2 hxov (fun y hy => Or.inl (hRx y hy)), I1.2⟩
+          exact ⟨fun y hy => Disj.ne (I3 x hx hxov (fun y hy => Or.inl (hRx y hy)) y hy), I1.2⟩
         · intro p
           simp only [pts, List.mem_cons]
           constructor
